@@ -1,9 +1,10 @@
-CONSTANTS NI = 2  NR = 2  NC = 2  NA = 2
-          KindSet = {"ocounter", "ogauge"}  TempSet = {"d", "c"}
-          VC = {0, 1, 3}  VSP = {0, 2}  VSN = {1}
-          MaxCol = 3  MaxRec = 0  Hist = FALSE  Ties = FALSE  Dev = {}
+\* hand-runnable copy of the quick configuration `conv-2readers` (tools/props/C17.py generates all cfgs):
+\*   tlc -deadlock -workers 4 -config MC_MetricsAsync.cfg MetricsAsync.tla
+CONSTANTS NI = 1 NR = 2 NC = 1 NA = 2 RichA = 1
+ KindSet = {"ocounter", "oupdown", "ogauge"} TempSet = {"d", "c"} VC = {1, 3} VSP = {2} VSN = {1}
+ MaxCol = 3 MaxRec = 0 MaxLen = 0 Hist = FALSE Ties = FALSE Dev = {} WitSet = {}
 INIT Init
 NEXT Next
 VIEW View
-INVARIANTS TypeOK EachCallbackOncePerCollection RemovedNeverInvoked OutAllowed
-           CumulativeGetsReportedTotal DeltaIsDifferenceFromOwnLast GaugeIsLatest
+INVARIANTS TypeOK EachCallbackOncePerCollection RemovedNeverInvoked OutAllowed CumulativeGetsReportedTotal DeltaIsDifferenceFromOwnLast GaugeIsLatest
+
